@@ -219,6 +219,7 @@ def exRun : List Label :=
   [(0, .call), (0, .push), (1, .call), (1, .push), (0, .snap), (1, .snap), (0, .ret), (1, .ret),
    (2, .call), (2, .isSub1), (2, .setTd), (2, .hist), (2, .serial), (2, .setTdF), (2, .insert), (2, .rdErr),
    (2, .rdCompl), (2, .hfetch), (2, .hdeliver), (2, .hfetch), (2, .hdeliver), (2, .hdone), (2, .setSbsc),
+   (2, .isSubEnd),
    (0, .call), (1, .call), (0, .push), (1, .push), (1, .snap), (0, .snap), (1, .fetch), (1, .ofetch), (1, .deliver),
    (0, .fetch), (0, .ofetch), (0, .deliver), (0, .ret), (1, .ret)]
 
